@@ -438,13 +438,22 @@ def bodyStep (chunked : Bool) (x : BodySt) : M (Step BodySt (Sock × Bytes)) :=
     let b ← readBlocks x.s mx x.size x.body
     if b.ret then pure (.done (b.s, b.body)) else pure (.next ⟨b.s, b.size, b.body⟩)
 
-/-- `HttpMessage::readBody()` -/
+/-- the Content-Length check of `readBody`: 1 to 10 decimal digits (over `length()` bytes) whose value fits an `int` -/
+def validLength (v : Bytes) : Bool :=
+  decide (1 ≤ v.length) && decide (v.length ≤ 10) && v.all (fun c => decide (48 ≤ c) && decide (c ≤ 57)) &&
+    decide (myatoi 64 (cstr v) ≤ 2147483647)
+
+/-- `HttpMessage::readBody()`: an invalid Content-Length gives the connection up; `Transfer-Encoding: chunked`
+    overrides Content-Length (also `Content-Length: 0`); otherwise Content-Length frames the body -/
 def readBody (s : Sock) (h : Dic) : M (Sock × Bytes) :=
   let size := myatoi 32 (cstr (header h sContentLength))
   let chunked := cstr (header h sTransferEncoding) == sChunked
-  if hasHeader h sContentLength && cstr (header h sContentLength) == [48] then pure (s, [])
-  else if !hasHeader h sContentLength && !chunked then pure (s, [])
-  else iterate (bodyStep chunked) (s.inp.length + 2) ⟨s, size, []⟩
+  if hasHeader h sContentLength && !validLength (header h sContentLength) then pure ({ s with closed := true }, [])
+  else if chunked then iterate (bodyStep true) (s.inp.length + 2) ⟨s, 0, []⟩
+  else if hasHeader h sContentLength then
+    (if cstr (header h sContentLength) == [48] then pure (s, [])
+     else iterate (bodyStep false) (s.inp.length + 2) ⟨s, size, []⟩)
+  else pure (s, [])
 
 /-- the `?` part of the split: `q > 0 && q < pathend` (then the query ends at `h > 0 ? h : pathend`, which is
     `pathend` itself, and the path ends at `q`) -/
@@ -598,6 +607,47 @@ def serveStep (x : SrvSt) : M (Step SrvSt (Sock × List Req)) :=
 
 /-- the requests handed to the application, in order, and the final socket state -/
 def serve (s : Sock) : M (Sock × List Req) := iterate serveStep (s.inp.length + 1) ⟨s, []⟩
+
+/-! ## `HttpServer::serveFile`: from the request path to the file under the root -/
+
+def sIndexHtml : Bytes := [105, 110, 100, 101, 120, 46, 104, 116, 109, 108]
+
+/-- what `serveFile` appends to `_webroot`: the path, with a `/` put in front when it has none, and `index.html`
+    after a final `/` -/
+def localRel (path : Bytes) : Bytes :=
+  let p := if path.head? == some 47 then path else 47 :: path
+  if p.getLast? == some 47 then p ++ sIndexHtml else p
+
+/-- a node of the file tree the harness serves (`<tmp>/root`): a directory or a file of `n` bytes -/
+inductive Node where
+  | dir (children : List (Bytes × Node))
+  | file (n : Nat)
+
+/-- the fixture of harness/c09.cpp `setupFiles()`: index.html (18), a.txt (36), e.bin (0), sub/b.txt (4), sub/index.html (8) -/
+def fixtureRoot : Node :=
+  .dir [(sIndexHtml, .file 18), ([97, 46, 116, 120, 116], .file 36), ([101, 46, 98, 105, 110], .file 0),
+        ([115, 117, 98], .dir [([98, 46, 116, 120, 116], .file 4), (sIndexHtml, .file 8)])]
+
+def lookupChild : List (Bytes × Node) → Bytes → Option Node
+  | [], _ => none
+  | (n, c) :: t, k => if n == k then some c else lookupChild t k
+
+/-- POSIX path resolution below the root: empty and `.` components stay in a directory (and need one) -/
+def resolve : Node → List Bytes → Option Node
+  | n, [] => some n
+  | .dir ch, c :: t =>
+    if c.isEmpty || c == [46] then resolve (.dir ch) t
+    else match lookupChild ch c with
+      | some n => resolve n t
+      | none => none
+  | .file _, _ :: _ => none
+
+/-- status code and Content-Length of the answer to `GET path` (no Range, no If-Modified-Since) -/
+def serveFileStatus (path : Bytes) : Nat × Nat :=
+  match resolve fixtureRoot (splitByte 47 (localRel path)) with
+  | some (.dir _) => (301, 0)
+  | some (.file n) => (200, n)
+  | none => (404, 9)
 
 /-! ## `Url::Url` -/
 
